@@ -202,7 +202,8 @@ fn parse_eq_delegate_by(
         return Ok(SpanOpt(Delegate::ByRef(RefDelegate::AsRef), span));
     }
 
-    let ident = input.parse::<syn::Ident>()?;
+    // `Self` is a keyword: plain `Ident` parsing rejects it
+    let ident = input.call(<syn::Ident as syn::ext::IdentExt>::parse_any)?;
 
     Ok(SpanOpt(
         match ident.to_string().as_str() {
